@@ -48,8 +48,10 @@ def run_case(c, femio, meshio, work):
         r['from_to'] = [[int(v) for v in row] for row in back]
         r['to_from'] = [[int(v) for v in row] for row in there]
         return r
+    DT = {'float64': np.float64, 'float32': np.float32, 'int64': np.int64, 'int32': np.int32}
     nid = np.array(c['node_ids'], dtype=np.int64)
-    xyz = np.array([[fl(x) for x in p] for p in c['points']], dtype=float)
+    xyz = np.array([[fl(x) for x in p] for p in c['points']], dtype=float).astype(
+        DT[c.get('points_dtype', 'float64')])
     blocks = {}
     for b in c['blocks']:
         blocks[b['type']] = femio.FEMAttribute(
@@ -57,7 +59,8 @@ def run_case(c, femio, meshio, work):
     fd = femio.FEMData(nodes=femio.FEMAttribute('NODE', nid, xyz),
                        elements=femio.FEMElementalAttribute('ELEMENT', blocks))
     for v in c['variables']:
-        data = np.array([fl(x) for x in v['flat']], dtype=float).reshape(v['shape'])
+        data = np.array([fl(x) for x in v['flat']], dtype=float).reshape(v['shape']).astype(
+            DT[v.get('dtype', 'float64')])
         fd.nodal_data.update_data(np.array(v['ids'], dtype=np.int64), {v['name']: data})
     # history: values of existing variables replaced through the public API
     for ow in c.get('overwrites', []):
@@ -68,27 +71,57 @@ def run_case(c, femio, meshio, work):
             fd.nodal_data[ow['name']].data = data
         else:
             fd.nodal_data.set_attribute_data(ow['name'], data)
-    # what femio holds just before the export
-    held = {'node_ids': [int(i) for i in fd.nodes.ids],
-            'points': [[ex(x) for x in p] for p in fd.nodes.data],
-            'blocks': [{'type': t, 'ids': [int(i) for i in a.ids],
-                        'conn': [[int(x) for x in row] for row in a.data]}
-                       for t, a in dict.items(fd.elements)],
-            'variables': [{'name': k, 'rank': int(np.asarray(a.data).ndim),
-                           'ids': [int(i) for i in a.ids], 'rows': rows_of(a.data)}
-                          for k, a in fd.nodal_data.items()]}
-    r['held'] = held
-    path = os.path.join(work, 'case_%d.vtk' % c['id'])
-    if os.path.exists(path):
+
+    def export(tag):
+        # what femio holds just before the export
+        held = {'node_ids': [int(i) for i in fd.nodes.ids],
+                'points': [[ex(x) for x in p] for p in fd.nodes.data],
+                'blocks': [{'type': t, 'ids': [int(i) for i in a.ids],
+                            'conn': [[int(x) for x in row] for row in a.data]}
+                           for t, a in dict.items(fd.elements)],
+                'variables': [{'name': k, 'rank': int(np.asarray(a.data).ndim),
+                               'ids': [int(i) for i in a.ids], 'rows': rows_of(a.data)}
+                              for k, a in fd.nodal_data.items()]}
+        path = os.path.join(work, 'case_%d%s.vtk' % (c['id'], tag))
+        if os.path.exists(path):
+            os.remove(path)
+        fd.write('vtk', path, overwrite=True)
+        m = meshio.read(path)
+        out = {'held': held,
+               'points': [[ex(x) for x in p] for p in m.points],
+               'cells': [{'type': cb.type, 'data': [[int(x) for x in row] for row in cb.data]}
+                         for cb in m.cells],
+               'point_data': {k: {'shape': list(v.shape), 'rows': rows_of(v)}
+                              for k, v in m.point_data.items()},
+               'cell_data_keys': sorted(m.cell_data.keys())}
         os.remove(path)
-    fd.write('vtk', path, overwrite=True)
-    m = meshio.read(path)
-    r['points'] = [[ex(x) for x in p] for p in m.points]
-    r['cells'] = [{'type': cb.type, 'data': [[int(x) for x in row] for row in cb.data]}
-                  for cb in m.cells]
-    r['point_data'] = {k: {'shape': list(v.shape), 'rows': rows_of(v)} for k, v in m.point_data.items()}
-    r['cell_data_keys'] = sorted(m.cell_data.keys())
-    os.remove(path)
+        return out
+    r.update(export(''))
+    # a second export from the SAME object after modifications through the public API
+    th = c.get('then')
+    if th:
+        if 'points' in th:
+            new = np.array([[fl(x) for x in p] for p in th['points']], dtype=float)
+            if th['points_how'] == 'setter':
+                fd.nodes.data = new
+            else:
+                fd.nodes.data[...] = new
+        if 'conn' in th:
+            blk = dict.__getitem__(fd.elements, th['conn']['type'])
+            newc = np.array(th['conn']['conn'], dtype=np.int64)
+            if th['conn']['how'] == 'setter':
+                blk.data = newc
+            else:                       # the same array edited in place and assigned back
+                cur = blk.data
+                cur[...] = newc
+                blk.data = cur
+        for ow in th.get('overwrites', []):
+            new = np.array([fl(x) for x in ow['flat']], dtype=float).reshape(ow['shape'])
+            if ow.get('how') == 'inplace':
+                fd.nodal_data[ow['name']].data[...] = new      # attr.data[i] = v
+            else:
+                fd.nodal_data.overwrite(ow['name'], new)
+        r['second'] = export('_b')
     return r
 
 
